@@ -262,6 +262,41 @@ static std::vector<size_t> closers(const std::string &d) {
     return v;
 }
 
+// positions of the structural characters [ ] { } , : of a valid document
+static std::vector<size_t> structural(const std::string &d) {
+    std::vector<size_t> v;
+    bool                in_str = false;
+    for (size_t i = 0; i < d.size(); ++i) {
+        char ch = d[i];
+        if (in_str) {
+            if (ch == '\\') ++i;
+            else if (ch == '"') in_str = false;
+        } else if (ch == '"') {
+            in_str = true;
+        } else if (ch == ']' || ch == '}' || ch == '[' || ch == '{' || ch == ',' || ch == ':') {
+            v.push_back(i);
+        }
+    }
+    return v;
+}
+
+template <typename Char_T>
+static void parse_units(const std::basic_string<char32_t> &t, const char *key, const char *what, unsigned u) {
+    std::vector<Char_T> w(t.size());
+    for (size_t i = 0; i < t.size(); ++i) w[i] = Char_T(t[i]);
+    Value<Char_T> v = JSON::Parse(w.data(), SizeT(w.size()));
+    if (!v.IsUndefined()) {
+        std::string shown;
+        for (char32_t x : t) {
+            char b[16];
+            if (x >= 0x20 && x < 0x7F) shown += char(x);
+            else { snprintf(b, sizeof(b), "\\u%04x", unsigned(x)); shown += b; }
+            if (shown.size() > 300) break;
+        }
+        vf::fail(key, "unit U+%04X %s, width %zu: accepted: %s", u, what, sizeof(Char_T), shown.c_str());
+    }
+}
+
 template <typename Char_T>
 static void c07_prefixes(const std::string &d) {
     // same buffer, shorter length: the units after the cut are the rest of the valid document
@@ -318,6 +353,36 @@ static void run_c07(uint64_t c) {
         parse_once<char16_t>(t, 9, true, "c07:trailing-accepted", "random unit");
         parse_once<char32_t>(d + " ,", 9, true, "c07:trailing-accepted", "space comma");
         parse_once<char>(d + "\n]", 9, true, "c07:trailing-accepted", "newline bracket");
+    }
+    // units that are not JSON whitespace although other grammars (isspace, Unicode) treat them as blank: after, before and
+    // between the tokens of a valid document each one must make the parse fail
+    {
+        static const unsigned nonws[] = {0x00, 0x01, 0x08, 0x0B, 0x0C, 0x0E, 0x1C, 0x1D, 0x1E, 0x1F, 0x7F, 0x85, 0xA0, 0x2028, 0x3000, 0xFEFF};
+        std::vector<size_t>   st      = structural(d);
+        for (unsigned u : nonws) {
+            const size_t            where = st[r.below(uint32_t(st.size()))];
+            std::basic_string<char32_t> w(d.begin(), d.end());
+            for (auto &x : w) x = char32_t((unsigned char)x);
+            std::basic_string<char32_t> a = w, b = w, m = w;
+            a += char32_t(u);
+            b.insert(b.begin(), char32_t(u));
+            m.insert(m.begin() + long(where) + (r.chance(1, 2) ? 1 : 0), char32_t(u));
+            const unsigned wsel = (u < 0x100) ? unsigned((u + c) % 3) : (1 + unsigned((u + c) % 2));
+            if (wsel == 0) {
+                parse_units<char>(a, "c07:non-json-blank-accepted", "after the document", u);
+                parse_units<char>(b, "c07:non-json-blank-accepted", "before the document", u);
+                parse_units<char>(m, "c07:non-json-blank-accepted", "next to a structural character", u);
+            } else if (wsel == 1) {
+                parse_units<char16_t>(a, "c07:non-json-blank-accepted", "after the document", u);
+                parse_units<char16_t>(b, "c07:non-json-blank-accepted", "before the document", u);
+                parse_units<char16_t>(m, "c07:non-json-blank-accepted", "next to a structural character", u);
+            } else {
+                parse_units<char32_t>(a, "c07:non-json-blank-accepted", "after the document", u);
+                parse_units<char32_t>(b, "c07:non-json-blank-accepted", "before the document", u);
+                parse_units<char32_t>(m, "c07:non-json-blank-accepted", "next to a structural character", u);
+            }
+            vf::count("c07_blank_parses", 3);
+        }
     }
     for (size_t pos : closers(d)) {
         std::string sw = d;
